@@ -25,7 +25,8 @@ RULE = ("stub cases: tripeptides X-ALA-ALA / ALA-X-ALA / ALA-ALA-X for X in ASP 
         "(group, position, force field, side of the pKa); all 276 reachable cells must be hit. sweep cases: one "
         "structure, fixed pKa table, 9-15 pH values (stub) / 29 pH values (real PROPKA on fragments). Non-trivial: "
         "every cell; distinct = cell x pKa relation class"
-        ' Round-2 additions: four-character residue numbers (>= 1000, <= -100); residues sharing name, number and chain that differ only by insertion code with mixed pKa sides; the rows real PROPKA returns are judged group by group like the stubbed tables.')
+        ' Round-2 additions: four-character residue numbers (>= 1000, <= -100); residues sharing name, number and chain that differ only by insertion code with mixed pKa sides; the rows real PROPKA returns are judged group by group like the stubbed tables.'
+        ' Round-3/4 additions: PARSE neutral-terminus cells (--neutraln/--neutralc crossed with every group in the terminal residue); unequal carboxyl C-O bonds.')
 ASSUMPTIONS = ["the stub reproduces PROPKA 3.5.1's row schema (res_num, ins_code, res_name, chain_id, group_label "
                "'%-3s%4d%2s', pKa; terminal groups labelled 'N+ ' / 'C- ' with the residue's own res_name)",
                "'can parameterise' = the independent force-field model has a row for every atom the topology defines "
